@@ -195,9 +195,29 @@ def buddy_plan():
     return plan
 
 
+RESIZE_PLAN = [(11, 16, 16, "quick"), (6, 13, 16, "quick"), (16, 11, 16, "quick"), (13, 6, 16, "quick"),
+               (5, 6, 16, "thorough"), (8, 12, 16, "thorough"), (1, 16, 16, "thorough"), (12, 8, 16, "thorough"),
+               (16, 1, 16, "thorough"), (7, 9, 16, "thorough"), (15, 16, 16, "thorough"), (16, 15, 16, "thorough")]
+
+
 def gen_buddy():
     lines = []
     recs = []
+    for n, m, c, tier in RESIZE_PLAN:
+        name = "c14_resize_n%d_to%d_c%d" % (n, m, c)
+        lines.append("buddy_harness!(%s, %s, %d, %d, %d, %d);" % (name, "grow" if m > n else "shrink", n, m, c, max(n, m, 8) + 3))
+        recs.append(Harness(
+            name=name, file="buddy_h.rs", props=["C14"], tier=tier, timeout=2400, mem=16,
+            desc="one resize(m) of a region of length n from any R-state: growing keeps the state of every old page "
+                 "and makes exactly the pages n..m free, merged with free neighbours at the largest aligned size "
+                 "(R holds at the new length); shrinking - under resize's own precondition that the cut pages "
+                 "are all free - keeps the state of every remaining page and R holds at the new length",
+            functions="BuddyAllocator::{resize,free_inner,record_alloc_inner,debug_check_consistency}, "
+                      "BtreeBitmap::{resize,get,set,clear,update_to_root}, U64GroupedBitmap::resize",
+            bound="region length %d -> %d, region capacity %d (orders 0..=%d); every bitmap word symbolic" % (
+                n, m, c, c.bit_length() - 1),
+            assumes="pre-state satisfies R (DESIGN.md C14); when shrinking, pages m..n are free (resize asserts it)",
+            shape={"n": n, "m": m, "cap": c}))
     for k, n, c, tier in buddy_plan():
         name = "c14_%s_n%d_c%d" % (k, n, c)
         lines.append("buddy_harness!(%s, %s, %d, %d, %d);" % (name, k, n, c, max(n, 8) + 3))
